@@ -1,13 +1,13 @@
 /- Line-protocol ops for the crash-safety model (C09).
 
    `c09.trace <token>…` — tokens describe a spec and a program (see harness/props/c09.py `Canon.tok_*`):
-     e<o>:<o,…>            object graph entry
+     e<o>:<o,…>:<o,…>      object graph entry: non-parent references, commit parents
      K<path>=<content>     fact about the start state
      R<r>=<-|s<o>|y<r>>    intended new ref value
      N<n>=<content>        intended new plain-file content
      g<o>                  garbage object
      w:<path>=<content>  mv:<path>:<path>  rm:<path>  mk:<path>  rd:<path>     calls
-   paths: l<o> p<p> i<p> r<r> P n<n> t<n> x<n>;  contents: - o<o> k<k> i<k>:<o,…> s<o> y<r> m<r>:<o>,… b<k> j d
+   paths: l<o> p<p> i<p> r<r> P S n<n> t<n> x<n>;  contents: - o<o> k<k> i<k>:<o,…> s<o> y<r> m<r>:<o>,… h<o,…> b<k> j d
    Answer (one line): `check=<0|1> first=<i|-> pre=<0|1>` followed, for every prefix j = 0…len, by
    ` | rec=<0|1> fs=<path>=<content>;… vis=<o,…> refs=<r>:<v>,…` (the model's file system after j calls, the
    objects it reads as visible, the ref map it reads, and the closed-world `recoverableK` verdict). -/
@@ -31,6 +31,7 @@ def csvNat (cs : List Char) : Option (List Nat) :=
 
 def pathC : List Char → Option Path
   | ['P'] => some .packedRefs
+  | ['S'] => some .shallow
   | 'l' :: r => (natC r).map .loose
   | 'p' :: r => (natC r).map .pack
   | 'i' :: r => (natC r).map .idx
@@ -55,6 +56,7 @@ def contentC : List Char → Option (Option Content)
   | 's' :: r => (natC r).map (fun n => some (.refSha n))
   | 'y' :: r => (natC r).map (fun n => some (.refSym n))
   | 'b' :: r => (natC r).map (fun n => some (.blob n))
+  | 'h' :: r => (csvNat r).map (fun l => some (.shallowSet l))
   | 'i' :: r =>
     (match splitC ':' r with
      | [k, l] => do some (some (.idxData (← natC k) (← csvNat l)))
@@ -96,8 +98,8 @@ def tokenC (t : String) (a : Acc) : Option Acc :=
   | 'r' :: 'd' :: ':' :: r => do some { a with prog := .rmdir (← pathC r) :: a.prog }
   | 'e' :: r =>
       (match splitC ':' r with
-       | [o, l] => do
-          let e := ((← natC o), (← csvNat l))
+       | [o, l, ps] => do
+          let e := ((← natC o), (← csvNat l), (← csvNat ps))
           some { a with spec := { a.spec with edges := e :: a.spec.edges } }
        | _ => none)
   | 'K' :: r => do
@@ -125,7 +127,7 @@ def parse (toks : List String) : Option Acc :=
 
 def showPath : Path → String
   | .loose o => s!"l{o}" | .pack p => s!"p{p}" | .idx p => s!"i{p}" | .ref r => s!"r{r}"
-  | .packedRefs => "P" | .plain n => s!"n{n}" | .tmp n => s!"t{n}" | .other n => s!"x{n}"
+  | .packedRefs => "P" | .shallow => "S" | .plain n => s!"n{n}" | .tmp n => s!"t{n}" | .other n => s!"x{n}"
 
 def csv (l : List Nat) : String := ",".intercalate (l.map toString)
 
@@ -133,7 +135,7 @@ def showContent : Content → String
   | .obj o => s!"o{o}" | .packData k => s!"k{k}" | .idxData k l => s!"i{k}:{csv l}"
   | .refSha o => s!"s{o}" | .refSym r => s!"y{r}"
   | .packed m => "m" ++ ",".intercalate (m.map (fun e => s!"{e.1}:{e.2}"))
-  | .blob k => s!"b{k}" | .junk => "j" | .dir => "d"
+  | .blob k => s!"b{k}" | .shallowSet l => s!"h{csv l}" | .junk => "j" | .dir => "d"
 
 def showRefV : Option RefV → String
   | none => "-" | some (.sha o) => s!"s{o}" | some (.sym r) => s!"y{r}" | some .bad => "bad"
@@ -152,10 +154,10 @@ def listing (K : Known) : List String :=
 def objIds (spec : Spec) (prog : List Call) : List Nat :=
   let fromC : Option Content → List Nat
     | some (.obj o) => [o] | some (.idxData _ l) => l | some (.refSha o) => [o]
-    | some (.packed m) => m.map Prod.snd | _ => []
+    | some (.packed m) => m.map Prod.snd | some (.shallowSet l) => l | _ => []
   let fromP : Path → List Nat
     | .loose o => [o] | _ => []
-  (spec.edges.flatMap (fun e => e.1 :: e.2) ++
+  (spec.edges.flatMap (fun e => e.1 :: (e.2.1 ++ e.2.2)) ++
    spec.known.flatMap (fun e => fromP e.1 ++ fromC e.2) ++
    prog.flatMap (fun c => match c with
      | .write p d => fromP p ++ fromC (some d)
